@@ -522,7 +522,11 @@ func genCase(withHoles bool) func(t *rapid.T) Case {
 				`<!DOCTYPE html SYSTEM "about:legacy-compat">`,
 				`<!DOCTYPE html PUBLIC "-//W3C//DTD HTML 4.01//EN" "http://www.w3.org/TR/html4/strict.dtd">`}).Draw(t, "doctype")
 			head := "<head><title>" + g.escText(g.decoded("title"), false) + "</title>" + rapid.SampledFrom([]string{"", `<meta charset="utf-8">`, `<link rel="stylesheet" href="/a.css?x=1&amp;y=2">`, `<meta name="d" content="a &amp; b">`}).Draw(t, "headx") + "</head>"
-			c.Source = dt + `<html lang="en">` + head + "<body" + g.attrs() + ">" + body + "</body></html>"
+			// what follows the closing tag: nothing, a line break, a long banner comment, many
+			// blank lines (the document / fragment decision must not depend on it)
+			trailer := rapid.SampledFrom([]string{"", "", "\n", "\n<!-- generated by the site builder on 2026-01-01 from templates/base; do not edit by hand -->\n",
+				strings.Repeat("\n", 80), "\n\n<!-- " + strings.Repeat("x", 200) + " -->"}).Draw(t, "trailer")
+			c.Source = dt + `<html lang="en">` + head + "<body" + g.attrs() + ">" + body + "</body></html>" + trailer
 			c.Entry = rapid.SampledFrom(entriesDoc).Draw(t, "entry")
 		} else {
 			c.Source = body
@@ -553,6 +557,7 @@ func classify(c Case) (bool, []string) {
 	mark(strings.Contains(s, "<pre>\n") || strings.Contains(s, "<textarea name=\"t\">\n"), "pre-leading-newline")
 	mark(strings.Contains(s, "<table"), "table")
 	mark(c.Doc, "document")
+	mark(c.Doc && len(s)-strings.LastIndex(s, "</html>") > 64, "document-with-long-trailer")
 	mark(strings.Contains(strings.ToLower(s), "<!doctype"), "doctype")
 	mark(strings.Contains(s, " PUBLIC ") || strings.Contains(s, " SYSTEM "), "legacy-doctype")
 	mark(strings.Contains(s, "<xmp") || strings.Contains(s, "<iframe") || strings.Contains(s, "<noembed") || strings.Contains(s, "<noframes"), "rawtext-fallback-element")
@@ -584,6 +589,8 @@ var corpus = []Case{
 	{Source: `<p>&lt;img src=x&gt; {{ h1 }}</p>`, Entry: "string", Data: map[string]vals.V{"h1": vals.Str("a&b")}},
 	{Source: `<!DOCTYPE html><html><head><title>t &amp; u</title></head><body><p>x</p></body></html>`, Doc: true, Entry: "load"},
 	{Source: `<!DOCTYPE html><html><head><title>t</title></head><body><p>x</p></body></html>`, Doc: true, Entry: "vue"},
+	{Source: `<!DOCTYPE html><html lang="en" class="k"><head><title>t</title></head><body class="b"><p>x</p></body></html>` + "\n<!-- generated by the site builder on 2026-01-01 from templates/base; do not edit by hand -->\n", Doc: true, Entry: "load"},
+	{Source: `<!DOCTYPE html><html lang="en"><head><title>t</title></head><body><p>x</p></body></html>` + strings.Repeat("\n", 80), Doc: true, Entry: "file"},
 	{Source: `<div><hr><img src="a.png" alt=""><input value="x" disabled><p>a<wbr>b</p></div>`, Entry: "file"},
 	{Source: `<pre>  keep
    this</pre><textarea name="t">a  b</textarea>`, Entry: "string"},
